@@ -1072,9 +1072,13 @@ func (t *Tree) Compile(file string, args []string, out io.Writer) (err error) {
 			printJump(ko)
 			_print("}")
 		case TypePredicate:
-			_print("\n   if !(%v) {", n)
+			/* the predicate gets a statement of its own: it may end in a line comment */
+			printBegin()
+			_print("\n   predicate := %v", n)
+			_print("\n   if !predicate {")
 			printJump(ko)
 			_print("}")
+			printEnd()
 		case TypeStateChange:
 			_print("\n   %v", n)
 		case TypeAction:
